@@ -249,7 +249,7 @@ fn c06_utf8_match_bytes_3() {
 fn c06_utf8_match_bytes_4() {
     match_bytes_body::<4>();
 }
-// @verif props=C06 tier=thorough timeout=1500 unwind=20 bound="literal of 16 symbolic bytes (longer than any haystack in bound: must fail without reading outside)" funcs="Utf8Input::match_bytes"
+// @verif props=C06 tier=extended timeout=1500 unwind=20 bound="literal of 16 symbolic bytes (longer than any haystack in bound: must fail without reading outside)" funcs="Utf8Input::match_bytes"
 #[kani::proof]
 #[kani::unwind(20)]
 fn c06_utf8_match_bytes_16() {
